@@ -390,88 +390,125 @@ def sumVecs (acc : List Rat) : List (List Rat) → Except Exc (List Rat)
     | .error e => .error e
     | .ok a => sumVecs a vs
 
+/-- `sourceinc[0]` -/
+def firstInc (src : Incon) : Except Exc IncVal :=
+  match src with
+  | [] => .error .indexError
+  | p :: _ => .ok p.2
+
+/-- `geo.layerlist[0]` -/
+def Geo.lay0 (g : Geo) : Except Exc Lay :=
+  match g.lays with
+  | [] => .error .indexError
+  | l :: _ => .ok l
+
+/-- target type 1, source type 0: `self[blk] = copy(sourceinc[0])` for the block over column `c` -/
+def atmBroadcast (geo : Geo) (src : Incon) (c : Col) : Except Exc (Str × IncVal) :=
+  match geo.lay0 with
+  | .error e => .error e
+  | .ok g0 =>
+    match blockName geo.conv g0.name c.name with
+    | .error e => .error e
+    | .ok blk =>
+      match firstInc src with
+      | .error e => .error e
+      | .ok v => .ok (blk, v)
+
+/-- target type 1, source type 1: the state of the source's atmosphere block over the mapped column -/
+def atmPerColumn (sgeo geo : Geo) (src : Incon) (colmapping : Dict Str) (c : Col) : Except Exc (Str × IncVal) :=
+  match dget colmapping c.name with
+  | .error e => .error e
+  | .ok mappedcol =>
+    match sgeo.lay0 with
+    | .error e => .error e
+    | .ok s0 =>
+      match blockName sgeo.conv s0.name mappedcol with
+      | .error e => .error e
+      | .ok old =>
+        match geo.lay0 with
+        | .error e => .error e
+        | .ok g0 =>
+          match blockName geo.conv g0.name c.name with
+          | .error e => .error e
+          | .ok blk =>
+            match dget src old with
+            | .error e => .error e
+            | .ok v => .ok (blk, v)
+
+/-- target type 1, source without atmosphere: the default state -/
+def atmDefaultCol (geo : Geo) (c : Col) : Except Exc (Str × IncVal) :=
+  match geo.lay0 with
+  | .error e => .error e
+  | .ok g0 =>
+    match blockName geo.conv g0.name c.name with
+    | .error e => .error e
+    | .ok blk => .ok (blk, defaultAtm)
+
+/-- the variables of the source's atmosphere block over column `c` (for the average) -/
+def atmColVars (sgeo : Geo) (src : Incon) (c : Col) : Except Exc (List Rat) :=
+  match sgeo.lay0 with
+  | .error e => .error e
+  | .ok s0 =>
+    match blockName sgeo.conv s0.name c.name with
+    | .error e => .error e
+    | .ok blk =>
+      match dget src blk with
+      | .error e => .error e
+      | .ok v => .ok v.vars
+
+/-- a `for` loop whose body may raise -/
+def foldE {α β : Type} (f : β → α → Except Exc β) : β → List α → Except Exc β
+  | b, [] => .ok b
+  | b, a :: as =>
+    match f b a with
+    | .error e => .error e
+    | .ok b' => foldE f b' as
+
+/-- `varsum += np.array(sourceinc[blk].variable)` for the atmosphere block over column `c` -/
+def avgStep (sgeo : Geo) (src : Incon) (acc : List Rat) (c : Col) : Except Exc (List Rat) :=
+  match atmColVars sgeo src c with
+  | .error e => .error e
+  | .ok v => addVec acc v
+
+/-- target type 0, source type 1: the average over the source's atmosphere blocks, as a
+    fresh `t2blockincon` (no porosity etc.).  (With no source columns numpy yields nan with a
+    warning; the model has no nan and reports ZeroDivisionError — unreachable under GeoInv.) -/
+def atmAverage (sgeo : Geo) (src : Incon) : Except Exc IncVal :=
+  match firstInc src with
+  | .error e => .error e
+  | .ok first =>
+    match foldE (avgStep sgeo src) (List.replicate first.vars.length 0) sgeo.cols with
+    | .error e => .error e
+    | .ok total =>
+      if sgeo.cols.isEmpty then .error .zeroDivision
+      else .ok ⟨total.map (· / (sgeo.cols.length : Rat)), none, none⟩
+
 /-- the atmosphere part of `transfer_from` -/
 def transferAtm (src : Incon) (sgeo geo : Geo) (colmapping : Dict Str) : Except Exc Incon :=
   if geo.atm = 0 then
-    match geo.lays with
-    | [] => .error .indexError
-    | g0 :: _ =>
+    match geo.lay0 with
+    | .error e => .error e
+    | .ok g0 =>
       match blockName geo.conv g0.name (atmColName geo.conv) with
       | .error e => .error e
       | .ok atmblk =>
-        if sgeo.atm = 0 then
-          match src with
-          | [] => .error .indexError
-          | p :: _ => .ok [(atmblk, p.2)]
-        else if sgeo.atm = 1 then
-          match src with
-          | [] => .error .indexError
-          | p :: _ =>
-            match sgeo.lays with
-            | [] => if sgeo.cols.isEmpty then .error .zeroDivision else .error .indexError
-            | s0 :: _ =>
-              match mapE (fun (c : Col) =>
-                  match blockName sgeo.conv s0.name c.name with
-                  | .error e => .error e
-                  | .ok blk =>
-                    match dget src blk with
-                    | .error e => .error e
-                    | .ok v => .ok v.vars) sgeo.cols with
-              | .error e => .error e
-              | .ok vs =>
-                match sumVecs (List.replicate p.2.vars.length 0) vs with
-                | .error e => .error e
-                | .ok total =>
-                  if sgeo.cols.isEmpty then .error .zeroDivision
-                  else .ok [(atmblk, ⟨total.map (· / (sgeo.cols.length : Rat)), none, none⟩)]
-        else .ok [(atmblk, defaultAtm)]
+        match (if sgeo.atm = 0 then firstInc src
+               else if sgeo.atm = 1 then atmAverage sgeo src
+               else .ok defaultAtm) with
+        | .error e => .error e
+        | .ok v => .ok [(atmblk, v)]
   else if geo.atm = 1 then
-    if sgeo.atm = 0 then
-      match mapE (fun (c : Col) =>
-          match geo.lays with
-          | [] => .error .indexError
-          | g0 :: _ =>
-            match blockName geo.conv g0.name c.name with
-            | .error e => .error e
-            | .ok blk =>
-              match src with
-              | [] => .error .indexError
-              | p :: _ => .ok (blk, p.2)) geo.cols with
-      | .error e => .error e
-      | .ok ps => .ok (dictOf ps)
-    else if sgeo.atm = 1 then
-      match mapE (fun (c : Col) =>
-          match dget colmapping c.name with
-          | .error e => .error e
-          | .ok mappedcol =>
-            match sgeo.lays with
-            | [] => .error .indexError
-            | s0 :: _ =>
-              match blockName sgeo.conv s0.name mappedcol with
-              | .error e => .error e
-              | .ok old =>
-                match geo.lays with
-                | [] => .error .indexError
-                | g0 :: _ =>
-                  match blockName geo.conv g0.name c.name with
-                  | .error e => .error e
-                  | .ok blk =>
-                    match dget src old with
-                    | .error e => .error e
-                    | .ok v => .ok (blk, v)) geo.cols with
-      | .error e => .error e
-      | .ok ps => .ok (dictOf ps)
-    else
-      match mapE (fun (c : Col) =>
-          match geo.lays with
-          | [] => .error .indexError
-          | g0 :: _ =>
-            match blockName geo.conv g0.name c.name with
-            | .error e => .error e
-            | .ok blk => .ok (blk, defaultAtm)) geo.cols with
-      | .error e => .error e
-      | .ok ps => .ok (dictOf ps)
+    match mapE (if sgeo.atm = 0 then atmBroadcast geo src
+                else if sgeo.atm = 1 then atmPerColumn sgeo geo src colmapping
+                else atmDefaultCol geo) geo.cols with
+    | .error e => .error e
+    | .ok ps => .ok (dictOf ps)
   else .ok []
+
+/-- `if (colmapping == {}) or (mapping == {}): mapping, colmapping = sourcegeo.block_mapping(geo, True)` -/
+def effectiveMaps (q : List (Rat × Rat) → Rat × Rat → Nat) (sgeo geo : Geo) (mapping colmapping : Dict Str) :
+    Except Exc (Dict Str × Dict Str) :=
+  if colmapping.isEmpty || mapping.isEmpty then blockMapping q sgeo geo else .ok (mapping, colmapping)
 
 /-- `self[blk] = copy(sourceinc[mapping[blk]])` as a (key, value) pair -/
 def incUnder (src : Incon) (mapping : Dict Str) (blk : Str) : Except Exc (Str × IncVal) :=
@@ -486,8 +523,7 @@ def incUnder (src : Incon) (mapping : Dict Str) (blk : Str) : Except Exc (Str ×
     the result is the new contents of `self` -/
 def transferFrom (q : List (Rat × Rat) → Rat × Rat → Nat) (src : Incon) (sgeo geo : Geo)
     (mapping colmapping : Dict Str) : Except Exc Incon :=
-  match (if colmapping.isEmpty || mapping.isEmpty then blockMapping q sgeo geo
-         else .ok (mapping, colmapping)) with
+  match effectiveMaps q sgeo geo mapping colmapping with
   | .error e => .error e
   | .ok (mapping, colmapping) =>
     match transferAtm src sgeo geo colmapping with
@@ -671,8 +707,7 @@ def transferGenerators (q : List (Rat × Rat) → Rat × Rat → Nat) (gens : Li
     (sgridVol : Dict Rat) (tgrid : List (Str × Rat)) (incolFlags : List Bool)
     (top bottom : List Str) (mapping colmapping : Dict Str) (rename preserve : Bool) :
     Except Exc (List GenOut) :=
-  match (if colmapping.isEmpty || mapping.isEmpty then blockMapping q sgeo geo
-         else .ok (mapping, colmapping)) with
+  match effectiveMaps q sgeo geo mapping colmapping with
   | .error e => .error e
   | .ok (mapping, colmapping) =>
     let incols := ((geo.cols.zip incolFlags).filter (·.2)).map (·.1)
